@@ -77,4 +77,10 @@ PLAN = {
         "parts": [part("en_idl", "c12", q=16, t=16, tq=300, tt=2400)],
         "assumptions": ["a reported line may be a line under any of the five line-ending conventions; column in 1..=chars(line)+1"],
     },
+    "C19": {
+        "level": "model_checking",
+        "pkg": "vcert",
+        "parts": [part("mc_cert", "c19", q=8, t=16, tq=300, tt=2400)],
+        "assumptions": ["each step is atomic under the service's write lock, so step-level interleaving covers concurrent clients", "client ids are derived from Instant::now(): two clients starting within the clock resolution could collide (not explored)"],
+    },
 }
